@@ -208,13 +208,16 @@ Proof.
   rewrite <- (h_leb H). destruct (fleb A y x); rewrite (h_sub H); reflexivity.
 Qed.
 
-Hypothesis nz255 : @is_zero A (fofZ A 255) = false.
+Hypothesis nzpos : forall p : positive, @is_zero A (fofZ A (Zpos p)) = false.
 
 Lemma h_byte z : h (@byte A z) = @byte B z.
-Proof. unfold byte. rewrite (h_div H) by exact nz255. rewrite !(h_ofZ H). reflexivity. Qed.
+Proof. unfold byte. rewrite (h_div H) by apply nzpos. rewrite !(h_ofZ H). reflexivity. Qed.
 
-Lemma h_plane_at data w i j : h (@plane_at A data w i j) = @plane_at B data w i j.
-Proof. unfold plane_at. apply h_byte. Qed.
+Lemma h_pval den z : h (@pval A den z) = @pval B den z.
+Proof. unfold pval. rewrite (h_div H) by apply nzpos. rewrite !(h_ofZ H). reflexivity. Qed.
+
+Lemma h_plane_at den data w i j : h (@plane_at A den data w i j) = @plane_at B den data w i j.
+Proof. unfold plane_at. apply h_pval. Qed.
 
 Lemma h_paste vp bb (vals : Z -> Z -> F A) bg i j :
   h (paste vp bb vals bg i j) = paste vp bb (fun i j => h (vals i j)) (h bg) i j.
@@ -365,11 +368,17 @@ Proof.
     rewrite H1, H2 in Hz. discriminate Hz.
 Qed.
 
-Lemma nz255_Q : @is_zero QOps (fofZ QOps 255) = false.
-Proof. reflexivity. Qed.
+Lemma nzpos_Q (p : positive) : @is_zero QOps (fofZ QOps (Zpos p)) = false.
+Proof.
+  unfold is_zero. change (Qle_bool (inject_Z (Zpos p)) (inject_Z 0) && Qle_bool (inject_Z 0) (inject_Z (Zpos p)) = false).
+  assert (E : Qle_bool (inject_Z (Zpos p)) (inject_Z 0) = false).
+  { destruct (Qle_bool (inject_Z (Zpos p)) (inject_Z 0)) eqn:E; [|reflexivity].
+    apply Qle_bool_iff in E. rewrite <- Zle_Qle in E. exfalso. apply E. reflexivity. }
+  rewrite E. reflexivity.
+Qed.
 
 (* Theorem: what vm_compute evaluates over Q is, through Q2R, exactly the real-number model *)
 Theorem model_Q_is_model_R vp (cb ab : Q) ls x y k :
   let '(C, f, al) := @composite_doc QOps vp cb ab ls x y k in
   @composite_doc ROps vp (Q2R cb) (Q2R ab) ls x y k = (Q2R C, Q2R f, Q2R al).
-Proof. exact (composite_doc_commutes QOps ROps Q2R Q2R_hom nz255_Q vp cb ab ls x y k). Qed.
+Proof. exact (composite_doc_commutes QOps ROps Q2R Q2R_hom nzpos_Q vp cb ab ls x y k). Qed.
